@@ -9,6 +9,11 @@ where
     let start = s.len() - s.trim_start_matches('_').len();
     let end = s.trim_end_matches('_').len();
 
+    // Names that consist of underscores only have nothing to convert.
+    if start >= end {
+        return s.to_owned();
+    }
+
     format!("{}{}{}", &s[..start], convert(&s[start..end]), &s[end..],)
 }
 
